@@ -171,7 +171,7 @@ def scaling(ctx, g, dims):
 
 def scenarios(tier):
     T = []
-    D = {1: [[1], [2], [3]], 2: [[2, 2], [1, 2], [2, 1]], 3: [[2, 2, 2]]}
+    D = {1: [[1], [2], [3]], 2: [[2, 2], [1, 2], [2, 1]], 3: [[2, 2, 2], [1, 2, 3]]}
     if tier == 'thorough':
         D = {1: [[1], [2], [3], [4]], 2: [[2, 2], [1, 2], [2, 1], [3, 2], [2, 3]], 3: [[2, 2, 2], [1, 2, 2], [2, 1, 2], [2, 2, 1]]}
     for g in scen.ALL:
